@@ -18,6 +18,7 @@ import (
 //	r  the action held in a gated node returns
 //	U  Agent.Unload(symbol <node>)     L  Agent.Load(symbol <node>)   (the agent attached to the workflow)
 //	X  the session's process exits (only when nothing of it is in flight) and a fresh process takes its place
+//	n  like a, but the answer is the packet.None singleton itself (what nop / fork / session nodes answer)
 //	d  a sink calls Receive once more although nothing is pending (a repeated answer): it must be
 //	   refused, reach no writer and be no answer to anything
 type op struct {
@@ -30,7 +31,12 @@ type op struct {
 func (o op) String() string {
 	switch o.kind {
 	case 'w':
+		if o.v == noneReq {
+			return fmt.Sprintf("w%d.%d=N", o.sess, o.node)
+		}
 		return fmt.Sprintf("w%d.%d=%d", o.sess, o.node, o.v)
+	case 'n':
+		return fmt.Sprintf("n%d.%d", o.sess, o.node)
 	case 'd':
 		return fmt.Sprintf("d%d.%d", o.sess, o.node)
 	case 'U':
@@ -44,6 +50,10 @@ func (o op) String() string {
 	}
 	return fmt.Sprintf("a%d.%d", o.sess, o.node)
 }
+
+// noneReq as the value of a write: the source writes the packet.None singleton itself (downstream it
+// is a packet without payload, read as 0 by the workflows' nodes).
+const noneReq = -1
 
 type pendingReq struct {
 	write int
@@ -148,7 +158,7 @@ func (r *runner) await(o op, sr *sessRun, obs *[]string) {
 	for i := 0; i < total; i++ {
 		select {
 		case ev := <-sr.s.events:
-			key := fmt.Sprintf("%d:%s", ev.sink, canon(ev.pck))
+			key := fmt.Sprintf("%d:%d", ev.sink, intOf(ev.pck)) // a packet without payload reads as 0
 			gotA = append(gotA, key)
 			if as := wantA[key]; len(as) > 0 {
 				a := as[0]
@@ -192,11 +202,16 @@ func (r *runner) exec(o op) {
 	sr.ip.clear()
 	switch o.kind {
 	case 'w':
-		w := sr.ip.write(o.node, o.v)
+		out := packet.New(types.NewInt(o.v))
+		v := o.v
+		if o.v == noneReq {
+			out, v = packet.None, 0
+		}
+		w := sr.ip.write(o.node, v)
 		if r.beforeWrite != nil {
 			r.beforeWrite(o.sess)
 		}
-		n := sr.s.writers[o.node].Write(packet.New(types.NewInt(o.v)))
+		n := sr.s.writers[o.node].Write(out)
 		obs = append(obs, fmt.Sprintf("n=%d", n))
 		sr.queue[o.node] = append(sr.queue[o.node], w)
 		r.await(o, sr, &obs)
@@ -210,7 +225,7 @@ func (r *runner) exec(o op) {
 			r.failf("step %v: no action was waiting in node %d", o, o.node)
 		}
 		r.await(o, sr, &obs)
-	case 'a':
+	case 'a', 'n':
 		q := sr.pending[o.node]
 		if len(q) == 0 {
 			return
@@ -218,6 +233,9 @@ func (r *runner) exec(o op) {
 		req := q[0]
 		sr.pending[o.node] = q[1:]
 		back := packet.New(types.NewInt(req.value + 1000))
+		if o.kind == 'n' {
+			back = packet.None
+		}
 		sr.sent[o.node] = append(sr.sent[o.node], back)
 		ok := sr.s.readers[o.node].Receive(back)
 		obs = append(obs, fmt.Sprintf("recv=%v", ok))
